@@ -281,6 +281,19 @@ def rot_job(j):
     where = "%s with copy %s rotting after its flush" % (" ".join(cmd), "+".join(str(i) for i in which))
     rotted = [e for e in res.trace if e.call == "ROT"]
     if len(rotted) < len(which):
+        # the rot is planted when the copy's own .tmp is fsync'ed.  A copy that is renamed into place without that fsync having
+        # happened is the property failing (the atomic-replacement recipe), not a harness problem
+        unsynced = [i for i in which if any(e.call == "rename" and e.ret != -1 and e.path == paths[i] + ".tmp" for e in res.trace)
+                    and not any(e.call == "fsync" and e.path == paths[i] + ".tmp" for e in res.trace)]
+        if unsynced:
+            return dict(viols=[dict(kind="copy-renamed-into-place-without-an-fsync-of-its-own", where=where, copies=unsynced, rc=res.rc)], harness=False)
+        # ... likewise a copy that was written while the flush step fsync'ed OTHER copies but not this one
+        tmps = [p_ + ".tmp" for p_ in paths]
+        skipped = [i for i in which if any(e.call in ("write", "pwrite") and e.path == tmps[i] for e in res.trace)
+                   and not any(e.call == "fsync" and e.path == tmps[i] for e in res.trace)
+                   and any(e.call == "fsync" and e.path in tmps for e in res.trace)]
+        if skipped:
+            return dict(viols=[dict(kind="copy-written-but-left-out-of-the-fsync-step", where=where, copies=skipped, rc=res.rc)], harness=False)
         return dict(viols=[dict(kind="harness-rot-not-injected", where=where, rc=res.rc)], harness=True)
     v = []
     if res.rc == 0:
